@@ -15,9 +15,11 @@ open ArvVerif.Facts.C05
 `replicaOn`; `runClasses` (desired == 0); `less` (four key tests); `trySlot`, `protectStep`,
 `wantStep`; `pass1`/`pass2`; `classIter` (underrep / `safeCount` / `wantDevMtimes`); `finalWant`;
 `change`; `lostFlag`. The list is that of the code after the fix: commits for F1 (protDev, safeDev,
-protDev in the multi-server loop), F2 (in-class test before counting) and F12 (lost after the loop). -/
+protDev in the multi-server loop), F2 (in-class test before counting), F12 (lost after the loop) and F05a (classes without a mount
+table make the block under-replicated; lost ranges over blk.Desired). -/
 theorem tie_balanceConds : balanceConds =
   ["if blk.Replicas[r].KeepMount == mnt",
+   "if desired > 0 && bal.mountsByClass[class] == nil",
    "if desired == 0",
    "if classi != classj",
    "if si.want != sj.want",
@@ -46,7 +48,7 @@ theorem tie_balanceConds : balanceConds =
    "if bal.Dumper != nil",
    "if slot.repl != nil",
    "if !lost && len(blk.Replicas) == 0",
-   "if blk.Desired[class] > 0",
+   "if desired > 0",
    "if bal.Dumper != nil"] := rfl
 
 /-- what each comparator branch and trySlot return (`less`, `trySlot`) -/
@@ -140,6 +142,7 @@ theorem tie_balanceAssigns : balanceAssigns =
    "repl = &blk.Replicas[r]",
    "slots = append(slots, slot{ mnt: mnt, repl: repl, want: repl != nil && mnt.ReadOnly, })",
    "underreplicated := false",
+   "underreplicated = true",
    "repli, replj := si.repl != nil, sj.repl != nil",
    "replWant := 0",
    "replProt := 0",
